@@ -283,14 +283,27 @@ func (this *DatasetManager) processSnapshot(data []byte) error {
 			return err
 		}
 		inSnapshot[id] = struct{}{}
-		if _, exists := this.datasets[id]; !exists {
-			this.datasets[id], err = newDataset(id, *dataset, this.raftWalDB, this.raftTransport, this.clusterConn, this)
-			if err != nil {
-				return err
+		if existing, exists := this.datasets[id]; exists {
+			// The replica sets may have changed through entries this node never applied
+			for _, partitionMeta := range dataset.GetPartitions() {
+				partitionId, err := uuid.FromBytes(partitionMeta.GetId())
+				if err != nil {
+					return err
+				}
+				partition, err := existing.getPartition(partitionId)
+				if err != nil {
+					return err
+				}
+				partition.setNodes(partitionMeta.GetNodeIds())
 			}
-			for _, partition := range this.datasets[id].partitions {
-				this.allocator.watch(partition)
-			}
+			continue
+		}
+		this.datasets[id], err = newDataset(id, *dataset, this.raftWalDB, this.raftTransport, this.clusterConn, this)
+		if err != nil {
+			return err
+		}
+		for _, partition := range this.datasets[id].partitions {
+			this.allocator.watch(partition)
 		}
 	}
 
